@@ -64,7 +64,62 @@ def gen_case(rng):
     rng.shuffle(st)
     return {"filter": rng.randint(0, 1), "steps": [st]}
 
+def gen_case_multi(rng):
+    """an incremental program of two or three steps: later steps put heuristics on atoms NAMED in an earlier step and add edges over
+    graph nodes of earlier steps (the reader's name and node tables have to live across steps)"""
+    c = gen_case(rng)
+    st1 = c["steps"][0]
+    named = sorted(set(s[2][0] for s in st1 if s[0] == "O" and len(s[2]) == 1 and s[2][0] > 0))
+    occurring = sorted(set(a for s in st1 if s[0] in "RS" for a in s[2]) | set(abs(l) for s in st1 if s[0] == "R" for l in s[3]))
+    nodes = sorted(set(x for s in st1 if s[0] == "G" for x in (s[1], s[2]))) or [0, 1]
+    steps = [st1]
+    for _ in range(rng.choice([1, 1, 2])):
+        st = []
+        for _ in range(rng.randint(1, 3)):
+            tgt = rng.choice(named or occurring or [3])
+            st.append(("H", tgt, rng.randint(0, 5), rng.choice([1, -1, 5]), rng.choice([0, 1, 2]), [rng.choice(occurring)] if occurring and rng.random() < 0.6 else []))
+        for _ in range(rng.randint(0, 2)):
+            st.append(("G", rng.choice(nodes + [9]), rng.choice(nodes + [9]), [rng.choice(occurring)] if occurring and rng.random() < 0.6 else []))
+        rng.shuffle(st); steps.append(st)
+    return {"filter": rng.randint(0, 1), "steps": steps, "multi": 1}
+
+def words_multi(c):
+    w = ["I1"]
+    for st in c["steps"]: w += words({"steps": [st]})[1:]
+    return w
+
+def check_multi(c, back_words, amap):
+    """directive-level oracle for several steps: every heuristic on a mapped target comes back in ITS step on the image of its target with the
+    same modifier, bias and priority; the edges of all steps agree up to ONE injective renaming of the graph nodes"""
+    bsteps = []; cur = None
+    for w in back_words:
+        if w == "B": cur = []
+        elif w == "E": bsteps.append(cur); cur = None
+        elif cur is not None: cur.append(w)
+    if len(bsteps) != len(c["steps"]): return ("C08:steps", "the number of steps changed", {"want": len(c["steps"]), "got": len(bsteps)})
+    allo, allb = [], []
+    occurs = set()          # atoms the program has mentioned so far (a heuristic's target alone does not make an atom occur)
+    for k, (st, bw) in enumerate(zip(c["steps"], bsteps)):
+        orig = parse(words({"steps": [st]})); back = parse(bw)
+        for s_ in st:
+            if s_[0] == "R" and (s_[2] or s_[1] == 0): occurs |= set(s_[2]) | set(abs(l) for l in s_[3])
+            elif s_[0] == "S" and (s_[2] or s_[1] == 0): occurs |= set(s_[2]) | set(abs(l) for l, _ in s_[4])
+            elif s_[0] == "O": occurs |= set(abs(l) for l in s_[2])
+            elif s_[0] == "X": occurs.add(s_[1])
+            elif s_[0] == "H": occurs |= set(abs(l) for l in s_[5])
+            elif s_[0] == "G": occurs |= set(abs(l) for l in s_[3])
+        ho = sorted((amap[a], t, b, p) for a, t, b, p, cond in orig["heu"] if a in occurs and a in amap)
+        hb = sorted((a, t, b, p) for a, t, b, p, cond in back["heu"])
+        if ho != hb: return ("C08:heuristic", "step %d: the heuristic directives read back are not those given (target by name, modifier, bias, priority)" % (k + 1), {"want": ho, "got": hb})
+        allo.append(sorted((s, t) for s, t, _ in orig["edges"])); allb.append(sorted((s, t) for s, t, _ in back["edges"]))
+    onodes = sorted(set(x for es in allo for e in es for x in e)); bnodes = sorted(set(x for es in allb for e in es for x in e))
+    if len(onodes) <= 6:
+        ok = len(bnodes) == len(onodes) and any(all(sorted((dict(zip(onodes, perm))[s], dict(zip(onodes, perm))[t]) for s, t in eo) == eb for eo, eb in zip(allo, allb)) for perm in permutations(bnodes))
+        if not ok and (onodes or bnodes): return ("C08:edges", "no single injective renaming of the graph nodes makes the edges of all steps agree", {"orig": allo, "back": allb})
+    return "ok"
+
 def words(c):
+    if c.get("multi"): return words_multi(c)
     w = ["I0", "B"]
     for s in c["steps"][0]:
         k = s[0]
@@ -136,7 +191,7 @@ def corpus(ctx):
 
 def generate(ctx):
     n = {"quick": 3000, "thorough": 80000}[ctx.tier]
-    out = [gen_case(ctx.rng) for _ in range(n)]
+    out = [gen_case(ctx.rng) if ctx.rng.random() < 0.8 else gen_case_multi(ctx.rng) for _ in range(n)]
     # arbitrary symbol tables for the option-enabled reader (correspondence only)
     pool = [b"_heuristic(a,sign,1)", b"_heuristic(a,sign,1,2)", b"_heuristic(a,level,-2147483648)", b"_heuristic(a,init,2147483648)", b"_heuristic(a, sign,1)", b"_heuristic(,sign,1)",
             b"_heuristic(a,sign, +5 ,3)", b"_heuristic(f(a,b),true,1,-1)", b"_heuristic(\"x,y\",false,1)", b"_heuristic(\"x", b"_heuristic(a,sign,1)x", b"_heuristic(a,signal,1)",
@@ -154,7 +209,7 @@ def generate(ctx):
     return out
 
 def evaluate(ctx, cases):
-    raws = [c for c in cases if "raw" in c]; progsC = [dict(c, steps=[[tuple(s) for s in c["steps"][0]]]) for c in cases if "raw" not in c]
+    raws = [c for c in cases if "raw" in c]; progsC = [dict(c, steps=[[tuple(s) for s in st] for st in c["steps"]]) for c in cases if "raw" not in c]
     lines = ["so %s %s" % (c["opts"], c["raw"]) for c in raws]
     for c, l, i, m in zip(raws, lines, ctx.impl(lines), ctx.model(lines)):
         ctx.count(); ctx.dist["raw-symbols"] += 1
@@ -173,7 +228,8 @@ def evaluate(ctx, cases):
         nd = len(c["steps"][0])
         if nd >= 3 and any(s[0] in "HG" for s in c["steps"][0]): ctx.nontrivial(l1[k])
         ctx.dist["filter=%d" % c["filter"]] += 1
-        jc = dict(c, steps=[[list(s) for s in c["steps"][0]]])
+        if c.get("multi"): ctx.dist["multi-step"] += 1
+        jc = dict(c, steps=[[list(s) for s in st] for st in c["steps"]])
         ctx.sample({"line": l1[k][:200], "back": (i3[k] if isinstance(i3[k], str) else "CRASH")[:240]}, 3)
         bad = False
         for stage, (iv, mv) in enumerate(((i1[k], m1[k]), (i2[k], m2[k]), (i3[k], m3[k]))):
@@ -186,12 +242,14 @@ def evaluate(ctx, cases):
             ctx.fail("C08:error", "the round trip reports an error for a program with expressible directives", jc, {"convert": i1[k][-200:], "write": i2[k][-60:], "read": i3[k][-200:]}); continue
         g = i1[k].split(" ")[-1][2:]
         amap = dict(tuple(int(t) for t in kv.split("=")) for kv in g.split("/")) if g else {}
-        v = check(c, i3[k].split(" ")[:-1], amap)
+        v = check_multi(c, i3[k].split(" ")[:-1], amap) if c.get("multi") else check(c, i3[k].split(" ")[:-1], amap)
         if v is None: ctx.dist["too-large-for-oracle"] += 1
         elif v == "ok": ctx.dist["oracle-ok"] += 1
         else: ctx.fail(v[0], v[1], jc, dict(v[2], back=i3[k][:500]))
 
 def shrink_candidates(c):
     if "raw" in c: return []
-    st = c["steps"][0]
-    return [dict(c, steps=[st[:k] + st[k + 1:]]) for k in range(len(st))]
+    res = []
+    for si, st in enumerate(c["steps"]):
+        for k in range(len(st)): res.append(dict(c, steps=c["steps"][:si] + [st[:k] + st[k + 1:]] + c["steps"][si + 1:]))
+    return res
